@@ -1,15 +1,4 @@
-mod alloc;
-mod checks;
-mod conv;
-mod driver;
-mod duo;
-mod gen;
-mod peer;
-mod refcodec;
-mod refscram;
-mod rframe;
-mod simnet;
-mod spec;
+use vcheck::{alloc, checks, driver, refcodec};
 
 use driver::*;
 use serde_json::{json, Value as Json};
@@ -58,6 +47,23 @@ fn main() {
                 usage()
             }
             replay_file(&args[2])
+        }
+        "fuzz-seeds" => {
+            // vcheck fuzz-seeds <target> <dir>: write the seed corpus of a coverage-guided target
+            if args.len() < 4 {
+                usage()
+            }
+            let dir = Path::new(&args[3]);
+            std::fs::create_dir_all(dir).expect("mkdir");
+            let seeds: Vec<Vec<u8>> = match args[2].as_str() {
+                "c15_hostile" => checks::c15::fuzz_seeds(),
+                "c04_decode" => checks::c04::fuzz_seeds(),
+                _ => usage(),
+            };
+            for (i, s) in seeds.iter().enumerate() {
+                std::fs::write(dir.join(format!("seed-{i:04}")), s).expect("write seed");
+            }
+            println!("{} seeds", seeds.len());
         }
         "list" => {
             for p in checks::registry() {
@@ -254,7 +260,19 @@ fn parent(id: &str, tier: Tier) {
                     })
                 };
                 match jcase {
-                    _ if tail.contains("STUCK-WATCHDOG") => rep.inconclusive.push(format!("worker {} made no progress in wall-clock time and gave up:\n{}", s, tail)),
+                    _ if tail.contains("STUCK-WATCHDOG") => {
+                        // a thread blocked in real time (e.g. a lock held across an await): not a verdict, but keep the case
+                        let mut where_ = String::new();
+                        if let Some(j) = &jcase {
+                            let dir = Path::new(VERIF).join("replays/found");
+                            let _ = std::fs::create_dir_all(&dir);
+                            let path = dir.join(format!("{}-stuck-{:016x}.json", id, hash_of(&serde_json::to_string(j).unwrap_or_default())));
+                            let body = json!({"property": id, "variant": j["variant"], "signature": "stuck-in-real-time", "detail": "the worker made no progress in wall-clock time while executing this case (blocked thread)", "case": j["case"]});
+                            let _ = std::fs::write(&path, serde_json::to_vec_pretty(&body).unwrap());
+                            where_ = format!(" (case saved as {})", path.display());
+                        }
+                        rep.inconclusive.push(format!("worker {} made no progress in wall-clock time and gave up{}:\n{}", s, where_, tail))
+                    }
                     Some(j) if meta.crashy => {
                         let sig = crash_signature(&tail, &o.status);
                         rep.violations.push(Violation {
@@ -305,6 +323,27 @@ fn parent(id: &str, tier: Tier) {
         }
     }
 
+    // coverage-guided stage (thorough tier of the byte-level properties)
+    let mut fuzz_info = Json::Null;
+    if tier == Tier::Thorough && new_violations.is_empty() {
+        if let Some((target, runs_per_job, max_len)) = match id {
+            "C04" => Some(("c04_decode", 3_000_000u64, 2048u32)),
+            "C15" => Some(("c15_hostile", 150_000u64, 1024u32)),
+            _ => None,
+        } {
+            let runs_per_job = std::env::var("VERIF_FUZZ_RUNS").ok().and_then(|s| s.parse().ok()).unwrap_or(runs_per_job);
+            match fuzz_stage(id, target, runs_per_job, max_len, seed) {
+                Ok((info, crashes)) => {
+                    fuzz_info = info;
+                    for (detail, case, variant) in crashes {
+                        new_violations.push(Violation { variant, signature: format!("fuzz:{}", detail.lines().next().unwrap_or("").chars().take(120).collect::<String>()), detail, case });
+                    }
+                }
+                Err(e) => rep.inconclusive.push(format!("coverage-guided stage: {e}")),
+            }
+        }
+    }
+
     let wall = t0.elapsed().as_secs_f64();
     // evidence
     let mut samples = rep.samples.clone();
@@ -326,6 +365,7 @@ fn parent(id: &str, tier: Tier) {
             "exhaustive": rep.exhaustive,
             "notes": rep.notes,
             "shards": nshards,
+            "coverage_guided": fuzz_info,
         },
         "assumptions": meta.assumptions,
         "wall_s": (wall * 100.0).round() / 100.0,
@@ -383,6 +423,126 @@ fn parent(id: &str, tier: Tier) {
         std::process::exit(2);
     }
     std::process::exit(0);
+}
+
+/// Run the libFuzzer target `target` as 16 independent jobs with distinct seeds, `runs` executions each,
+/// from a fresh corpus seeded by `vcheck fuzz-seeds`. Returns statistics and the crashes found, each
+/// re-checked through the property's own replay function so that the replay file is a plain case.
+fn fuzz_stage(id: &str, target: &str, runs: u64, max_len: u32, seed: u64) -> Result<(Json, Vec<(String, Json, String)>), String> {
+    let fuzz_dir = Path::new(VERIF).join("fuzz");
+    let t0 = Instant::now();
+    let out = Command::new("cargo")
+        .args(["+nightly", "fuzz", "build", "--fuzz-dir", &fuzz_dir.to_string_lossy(), target])
+        .env("RUSTFLAGS", "--cfg fe2o3_amqp_verif --cfg tokio_unstable")
+        .env("CARGO_NET_OFFLINE", "true")
+        .current_dir(&fuzz_dir)
+        .output()
+        .map_err(|e| format!("cannot run cargo fuzz: {e}"))?;
+    if !out.status.success() {
+        let err = String::from_utf8_lossy(&out.stderr);
+        return Err(format!("cargo fuzz build failed: {}", err.lines().rev().take(15).collect::<Vec<_>>().into_iter().rev().collect::<Vec<_>>().join(" | ")));
+    }
+    let build_s = t0.elapsed().as_secs_f64();
+    let bin = fuzz_dir.join("target/x86_64-unknown-linux-gnu/release").join(target);
+    if !bin.exists() {
+        return Err(format!("fuzz binary {} not found after build", bin.display()));
+    }
+    let work = fuzz_dir.join("work").join(format!("{}-{}", target, std::process::id()));
+    let _ = std::fs::remove_dir_all(&work);
+    let seeds_dir = work.join("seeds");
+    std::fs::create_dir_all(&seeds_dir).map_err(|e| e.to_string())?;
+    let seeds: Vec<Vec<u8>> = match target {
+        "c04_decode" => checks::c04::fuzz_seeds(),
+        _ => checks::c15::fuzz_seeds(),
+    };
+    for (i, sd) in seeds.iter().enumerate() {
+        std::fs::write(seeds_dir.join(format!("seed-{i:04}")), sd).map_err(|e| e.to_string())?;
+    }
+    let jobs = 16u64;
+    let mut kids = Vec::new();
+    for j in 0..jobs {
+        let corpus = work.join(format!("corpus-{j}"));
+        let art = work.join(format!("art-{j}"));
+        std::fs::create_dir_all(&corpus).map_err(|e| e.to_string())?;
+        std::fs::create_dir_all(&art).map_err(|e| e.to_string())?;
+        let log = std::fs::File::create(work.join(format!("job-{j}.log"))).map_err(|e| e.to_string())?;
+        let child = Command::new(&bin)
+            .arg(&corpus)
+            .arg(&seeds_dir)
+            .args([
+                format!("-runs={runs}"),
+                format!("-seed={}", seed.wrapping_mul(jobs).wrapping_add(j).wrapping_add(1) as u32),
+                format!("-max_len={max_len}"),
+                "-timeout=120".to_string(),
+                "-rss_limit_mb=6144".to_string(),
+                "-len_control=0".to_string(),
+                "-print_final_stats=1".to_string(),
+                format!("-artifact_prefix={}/", art.display()),
+            ])
+            .stdout(Stdio::null())
+            .stderr(Stdio::from(log))
+            .spawn()
+            .map_err(|e| format!("cannot start fuzz job: {e}"))?;
+        kids.push((j, child, art));
+    }
+    let mut execs: u64 = 0;
+    let mut cov_max: u64 = 0;
+    let mut corpus_max: u64 = 0;
+    let mut crashes: Vec<(String, Json, String)> = Vec::new();
+    let mut bad_exit: Vec<String> = Vec::new();
+    let meta = find_prop(id);
+    for (j, mut child, art) in kids {
+        let st = child.wait().map_err(|e| e.to_string())?;
+        let log = std::fs::read_to_string(work.join(format!("job-{j}.log"))).unwrap_or_default();
+        for l in log.lines() {
+            if let Some(v) = l.strip_prefix("stat::number_of_executed_units:") {
+                execs += v.trim().parse::<u64>().unwrap_or(0);
+            }
+            if l.contains(" cov: ") {
+                let f: Vec<&str> = l.split_whitespace().collect();
+                if let Some(p) = f.iter().position(|x| *x == "cov:") {
+                    cov_max = cov_max.max(f.get(p + 1).and_then(|x| x.parse().ok()).unwrap_or(0));
+                }
+                if let Some(p) = f.iter().position(|x| *x == "corp:") {
+                    corpus_max = corpus_max.max(f.get(p + 1).and_then(|x| x.split('/').next()).and_then(|x| x.parse().ok()).unwrap_or(0));
+                }
+            }
+        }
+        let mut found_artifact = false;
+        if let Ok(rd) = std::fs::read_dir(&art) {
+            for e in rd.flatten() {
+                let name = e.file_name().to_string_lossy().to_string();
+                let data = std::fs::read(e.path()).unwrap_or_default();
+                found_artifact = true;
+                if name.starts_with("crash-") {
+                    let (variant, case) = match target {
+                        "c04_decode" => ("fuzz".to_string(), json!({"target": data.first().copied().unwrap_or(0) % checks::c04::N_TARGETS, "hex": refcodec::hex(&data[1.min(data.len())..]), "how": "libfuzzer"})),
+                        _ => ("hostile".to_string(), serde_json::to_value(checks::c15::fuzz_case(&data)).unwrap_or(Json::Null)),
+                    };
+                    // re-check through the property's replay path (outside the sanitizer build)
+                    let detail = match guarded(|| (meta.replay)(&variant, &case)) {
+                        Ok(Ok(())) => format!("libFuzzer job {j} crashed on this input but the plain replay holds (sanitizer-only failure?); log tail: {}", log.lines().rev().take(12).collect::<Vec<_>>().into_iter().rev().collect::<Vec<_>>().join(" | ")),
+                        Ok(Err(e)) => e,
+                        Err(p) => format!("panic: {}", p.join(" | ")),
+                    };
+                    crashes.push((detail, case, variant));
+                } else {
+                    bad_exit.push(format!("job {j} produced {name} (time/memory limit of the fuzzer, not a property verdict)"));
+                }
+            }
+        }
+        if !st.success() && !found_artifact {
+            bad_exit.push(format!("job {j} exited with {st:?} without an artifact; log tail: {}", log.lines().rev().take(6).collect::<Vec<_>>().into_iter().rev().collect::<Vec<_>>().join(" | ")));
+        }
+    }
+    let _ = std::fs::remove_dir_all(&work);
+    if !bad_exit.is_empty() && crashes.is_empty() {
+        return Err(bad_exit.join("; "));
+    }
+    Ok((
+        json!({"engine": "libFuzzer (cargo-fuzz, ASan, debug assertions)", "target": target, "jobs": jobs, "runs_per_job": runs, "executions": execs, "edges_covered_max": cov_max, "corpus_size_max": corpus_max, "seed_inputs": seeds.len(), "build_s": build_s.round(), "wall_s": t0.elapsed().as_secs_f64().round(), "crashes": crashes.len()}),
+        crashes,
+    ))
 }
 
 fn crash_signature(stderr_tail: &str, status: &std::process::ExitStatus) -> String {
